@@ -44,10 +44,48 @@ pub fn registry(a: &Value) -> Value {
     let pre: Vec<String> = a["pre"].as_array().map(|v| v.iter().map(|x| x.as_str().unwrap().to_string()).collect()).unwrap_or_default();
     let mut bad = vec![];
     let mut runs = 0;
+    let with_clone = a["with_clone"].as_bool().unwrap_or(false);
+    if op == "merge" {
+        // merge `other` (n fresh methods, optionally one sharing a name with self) into self: all-or-nothing
+        for n in 1..=3usize {
+            for shared in [None, Some("p0"), Some("p1")] {
+                let mut m = base(&pre);
+                let before = observe(&m);
+                if shared.map(|s| !before.contains_key(s)).unwrap_or(false) {
+                    continue;
+                }
+                let mut other = RpcModule::new(());
+                let names = ["o0", "o1", "o2"];
+                for nm in names.iter().take(n) {
+                    other.register_method(nm, |_, _, _| "tag-other").unwrap();
+                }
+                if let Some(sn) = shared {
+                    let sn: &'static str = if sn == "p0" { "p0" } else { "p1" };
+                    other.register_method(sn, |_, _, _| "tag-other-shared").unwrap();
+                }
+                let other_obs = observe(&other);
+                let r = m.merge(other).is_ok();
+                runs += 1;
+                let after = observe(&m);
+                let mut expect = before.clone();
+                if shared.is_none() {
+                    expect.extend(other_obs.clone());
+                }
+                if r != shared.is_none() || after != expect {
+                    bad.push(json!({"merge_other_size": other_obs.len(), "shared": shared, "returned_ok": r, "before": before, "after": after, "expected": expect}));
+                }
+            }
+        }
+    }
     for x in ALPHA {
+        if op == "merge" {
+            break;
+        }
         for y in ALPHA {
             let mut m = base(&pre);
             let before = observe(&m);
+            // a clone taken before the operation: it must keep its bindings, and must not change what the operation does
+            let kept = if with_clone { Some(m.clone()) } else { None };
             let taken = |n: &str| before.contains_key(n);
             let (ok, expect_ok, added): (bool, bool, Vec<(&str, String)>) = match op.as_str() {
                 "method" => (m.register_method(x, |_, _, _| "tag-x").is_ok(), !taken(x), vec![(x, "Sync:tag-x".into())]),
@@ -73,6 +111,12 @@ pub fn registry(a: &Value) -> Value {
             let mut expect = before.clone();
             if expect_ok {
                 if op == "remove" { expect.remove(x); } else { for (n, v) in &added { expect.insert(n.to_string(), v.clone()); } }
+            }
+            if let Some(k) = &kept {
+                let kobs = observe(k);
+                if kobs != before {
+                    bad.push(json!({"x":x,"y":y,"clone_changed":true,"before":before,"clone_after":kobs}));
+                }
             }
             if ok != expect_ok || after != expect {
                 bad.push(json!({"x":x,"y":y,"returned_ok":ok,"expected_ok":expect_ok,"before":before,"after":after,"expected":expect}));
